@@ -295,7 +295,9 @@ package interpreter
 
 // ---- request isolation (C08): a request evaluates in an environment of its own - every binding ExecuteRoute makes goes into
 // ---- an Environment created by this call, and the route body runs in it (the shared global environment is only its parent)
+// path parameters (C05): when the dispatcher supplies its bindings, those - not a second parse of the path string - are bound
 //@ func (*Interpreter).ExecuteRoute
+//@   assertat "for key, value := range params {" request.Params != nil ==> params == request.Params
 //@   callpre (*interpreter.Environment).Define fresh(arg0)
 //@   callpre (*interpreter.Environment).DefineWithSource fresh(arg0)
 //@   callpre (*interpreter.Interpreter).executeStatements fresh(arg2)
